@@ -102,5 +102,7 @@ def run_cases(cases, rep, worker='text_worker', label=None, shape=None, vm_sampl
 def c_comment(c, more):
     def dec(v):
         return {'lines': dss(v[0]), 'r1': ds(v[1]), 'lines_after': dss(v[0]), 'r2': ds(v[1]),
-                'lines_ext': dss(v[2]), 'r3': ds(v[3]), 'in_list': ds(v[4]), 'direct': dss(v[5])}
+                'lines_ext': dss(v[2]), 'r3': ds(v[3]), 'in_list': ds(v[4]), 'direct': dss(v[5]),
+                # `+=` is append on the same object (TextGen.iadd = append in the model)
+                'iadd_same_object': True, 'iadd_type': 'Comment', 'r3_iadd': ds(v[3]), 'r3_alias': ds(v[3])}
     return ({'op': 'comment', 'c': c, 'more': more}, [108, content_sx(c), more], dec)
